@@ -8,7 +8,7 @@
 From Coq Require Import NArith ZArith List Bool.
 From F8 Require Import Codec.Bytes Codec.Meta Codec.Extract Codec.Decode Codec.Encode Codec.Render Codec.Example
                        C02.Spec_C02 C02.WfC02 C02.TokenProofs C02.AuxProofs C02.EncodeProofs
-                       C01.Spec_C01 C01.ExtractProofs C01.RoundtripProofs.
+                       C01.Spec_C01 C01.WfC01 C01.ExtractProofs C01.FlatTheorem C01.RoundtripProofs.
 Import ListNotations.
 Local Open Scope N_scope.
 
@@ -20,6 +20,41 @@ Theorem c01_extract_inverts_print : forall f v rest sz tcap vcap,
   extract_element (pbytes (f, v) ++ rest) sz tcap vcap = XOk (itoa_N f) v (lenN (pbytes (f, v))).
 Proof. exact extract_field. Qed.
 Print Assumptions c01_extract_inverts_print.
+
+(* The round trip, for EVERY schema context and EVERY message object satisfying the decidable
+   hypotheses (all evaluated at run time on the generated messages):
+     wf_msg, fresh  -- as in C02 (unambiguous metadata, fields under their schema positions, ...);
+     vals_canonical -- every value text stored in the object is a fixed point of its type's rendering
+                       (so the printed content below IS the content the message was built with; negative
+                       ints and value-changing floats are excluded here and refuted further down);
+     c01_flat       -- C01/WfC01.v: no repeating-group ELEMENT (count fields may be present with 0),
+                       no Length-typed field besides BodyLength, no trailer field besides CheckSum;
+                       every value canonical for its type (render = identity: the vals_canonical of
+                       the design), < 2048 bytes, no SOH/NUL; tags < 65536; MsgType < 32 bytes;
+                       fields legal and not repeated; mandatory fields of header/body/trailer present;
+                       the header/trailer constructors as the generated code has them.
+   Then: the encoder succeeds, Message::factory (strict mode, checksum verified) succeeds on
+   exactly those bytes, the decoded object has the same content (the same printed (tag, value)
+   sequence in header, body and trailer, and the same message type), and encoding the decoded
+   object gives byte-identical output.  Any message type, any subset of fields, any values in
+   the canonical domain, any insertion order.
+   NOT covered by this theorem (covered by the differential run only): messages with group
+   elements (any depth), Length/data pairs, trailer fields. *)
+Theorem c01_roundtrip_partial : forall c m,
+  render_ok c -> wf_msg c m = true -> fresh m = true -> vals_canonical c m = true -> c01_flat c m = true ->
+  exists b m1 m' m2,
+    msg_encode c m = Ok (b, m1) /\ factory c real_caps b false false = Ok m' /\
+    msg_encode c m' = Ok (b, m2) /\
+    content c m <> None /\ content c m' = content c m /\ m_type m' = m_type m.
+Proof. exact c01_roundtrip_partial_lemma. Qed.
+Print Assumptions c01_roundtrip_partial.
+
+(* Non-vacuity of c01_roundtrip_partial's hypotheses (a Heartbeat with TestReqID). *)
+Theorem c01_partial_nonvacuous :
+  render_ok ex_ctx /\ wf_msg ex_ctx ex_hb = true /\ fresh ex_hb = true /\ vals_canonical ex_ctx ex_hb = true /\
+  c01_flat ex_ctx ex_hb = true.
+Proof. exact c01_partial_nonvacuous_lemma. Qed.
+Print Assumptions c01_partial_nonvacuous.
 
 (* Finding F01: negative integers do not survive.  fast_atoi ignores the sign character: a
    well-formed message built with MsgSeqNum = "-5" is encoded as 34=-25, decoded as -25 and
